@@ -177,6 +177,77 @@ Theorem C02_enumeration_irrelevant : forall c d latest number time et ee,
 Proof. exact new_block_enum_perm. Qed.
 Print Assumptions C02_enumeration_irrelevant.
 
+(* Second tie to the source.  Generated/ServiceTriggerFuns.v is rewritten from the repository on
+   every check (harness/cmd/translate/gen_servicetriggerfuns.go): shouldTriggerDecryption and
+   resolveDecryptableEon statement by statement, the early return / query parameters / row
+   selection loop of prepareTimeBasedTriggers, the expiry test and query argument of
+   TriggerProcessor.FetchEvents, the int32 cast of GetKeyperIndex, the sortIdentityPreimages
+   comparator, and the WHERE / ORDER BY clauses of the six queries named below.  The model's
+   functions are exactly those: a changed comparison (>= for >, a dropped activation or membership
+   or success test, an ORDER BY direction, a cast) breaks this obligation before any history is
+   generated. *)
+From Verif Require Import Generated.ServiceTriggerFuns Proofs.ServiceTriggerFuns.
+Theorem C02_translated_trigger_decision_agrees :
+  (forall c d r number time,
+     should_trigger c d r number time =
+     match resolve_decryptable_eon c d (ir_eon r) with
+     | Some e => gen_should_trigger true (eo_activation e) (to_i64 number) (ir_timestamp r) time
+     | None => gen_should_trigger false 0 (to_i64 number) (ir_timestamp r) time
+     end) /\
+  (forall c d idx,
+     resolve_decryptable_eon c d idx =
+     if gen_resolve_decryptable (found (latest_eon d idx)) (config_found c d idx) (is_keyper c d idx)
+                                (found (dkg_for_config d idx)) (dkg_success_of d idx)
+     then latest_eon d idx else None) /\
+  (forall c d latest number time enum,
+     prepare_time_based c d latest number time enum =
+     if gen_early_return latest time then (latest, [])
+     else
+       let rows := window_rows d (gen_window_p1 (gen_last_triggered latest)) (gen_window_p2 time) in
+       let chosen := gen_select_rows (fun r => should_trigger c d r number time) rows in
+       let groups := time_groups c d chosen in
+       (gen_new_latest time, emit_time groups (enum (map fst groups)))) /\
+  (forall d lo hi,
+     window_rows d lo hi =
+     sort_by (fun a b => gen_q_window_before (ir_timestamp a) (ir_timestamp b))
+             (filter (fun r => gen_q_window_where (ir_timestamp r) (ir_decrypted r) lo hi) (irs d))) /\
+  (forall d start,
+     active_triggers d start =
+     filter (fun e => gen_q_active_where (et_expiration e) (et_decrypted e)
+                        (existsb (ft_match (et_eon e) (et_identity e)) (fts d)) start) (ets d)) /\
+  (forall start end_ e leon lid lblk, 0 <= et_expiration e < 2^63 ->
+     log_hits start end_ e (leon, lid, lblk) =
+     et_match leon lid e && (start <=? lblk) && (lblk <=? end_) && negb (gen_log_expired lblk (et_expiration e))) /\
+  (forall start, 0 <= start < 2^63 -> gen_active_param start = start) /\
+  (forall best e rest idx,
+     latest_eon_from best (e :: rest) idx =
+     if gen_q_latest_eon_where (eo_cfg e) idx
+     then match best with
+          | Some b => if gen_q_latest_eon_before (eo_eon e) (eo_eon b)
+                      then latest_eon_from (Some e) rest idx else latest_eon_from best rest idx
+          | None => latest_eon_from (Some e) rest idx
+          end
+     else latest_eon_from best rest idx) /\
+  (forall best e rest blk,
+     eon_for_block_from best (e :: rest) blk =
+     if gen_q_eon_for_block_where (eo_activation e) blk
+     then match best with
+          | Some b => if gen_q_eon_for_block_before (eo_activation e) (eo_activation b) (eo_height e) (eo_height b)
+                      then eon_for_block_from (Some e) rest blk else eon_for_block_from best rest blk
+          | None => eon_for_block_from (Some e) rest blk
+          end
+     else eon_for_block_from best rest blk) /\
+  (forall d eon, get_dkg d eon = find (fun k => gen_q_dkg_result_where (dk_eon k) eon) (dkgs d)) /\
+  (forall d idx addr,
+     get_keyper_index d idx addr =
+     match find (fun c => gen_q_batch_config_where (cf_index c) (gen_batch_config_param idx)) (cfgs d) with
+     | None => KINoConfig
+     | Some c => match index_of (cf_keypers c) addr 0 with Some i => KIMember i | None => KINotMember end
+     end) /\
+  (forall a b, gen_identity_less a b = bytes_ltb a b).
+Proof. exact translated_trigger_decision_agrees. Qed.
+Print Assumptions C02_translated_trigger_decision_agrees.
+
 (* ------------------------------------------------------------------------------------- *)
 (* Non-vacuity: concrete histories on which the hypotheses hold and triggers are sent. *)
 
@@ -303,3 +374,17 @@ Proof.
   intros H. specialize (H (mkEon 1 10 100 1) (mkEon 2 11 100 2)).
   assert (1 = 2) by (apply H; vm_compute; auto). discriminate.
 Qed.
+
+(* the translated decision at the boundaries: release time one below / equal to the block time,
+   activation block equal to / one above the block number, log at / one after the expiry block *)
+Example C02_translated_trigger_decision_agrees_nonvacuous :
+  gen_should_trigger true 100 100 999 1000 = true /\
+  gen_should_trigger true 100 100 1000 1000 = false /\
+  gen_should_trigger true 100 99 999 1000 = false /\
+  gen_should_trigger false 100 100 999 1000 = false /\
+  gen_resolve_decryptable true true true true true = true /\
+  gen_resolve_decryptable true true false true true = false /\
+  gen_resolve_decryptable true true true true false = false /\
+  gen_log_expired 200 200 = false /\ gen_log_expired 201 200 = true /\
+  gen_early_return (Some 1000) 1000 = true /\ gen_early_return (Some 1000) 1001 = false.
+Proof. vm_compute. repeat split; reflexivity. Qed.
